@@ -616,8 +616,21 @@ func (r *run) checkImage(d *Disk, when string, count bool) {
 		}
 	} else {
 		r.res.Probe("head-state-pruned")
+		// The head's own state is gone (pruned, or not yet saved after a crash between the head
+		// marker and the state save). The property demands only that what Load() returns equals
+		// what was saved for the height it claims to be: the empty state, or a kept state below
+		// the head (the product falls back to the one just below, or to the genesis state under
+		// the chain's first block, so that an interrupted commit can be finished).
 		if loaded.Validators != nil {
-			r.fail("load", "Load() returns a state although the state of the head height was pruned", fmt.Sprintf("head %d", r.head))
+			ls := snapState(loaded)
+			below, kept := r.model[ls.height]
+			if !kept || ls.height >= r.head {
+				r.fail("load", "Load() returns a state although the head height's state is not kept and the returned height's state is not kept either", fmt.Sprintf("head %d returned %d", r.head, ls.height))
+			} else if f, d := r.cmp(below, ls); f != "" {
+				r.fail("load", stateSig(below, f, "Load() falling back below the head ("+when+"): "+f+" differ from the saved state"), fmt.Sprintf("head %d: %s", r.head, d))
+			} else {
+				r.res.Probe("load-fell-back-below-head")
+			}
 		}
 	}
 	for h := uint64(0); h <= r.head; h++ {
@@ -735,7 +748,10 @@ func (r *run) crashImages() {
 			}
 			// head marker already at H, state of H not yet saved: the node's write order,
 			// a crash-recovery matter (C05), noted once per run, not a C14 verdict
-			if H >= 1 && k >= r.iBlock+3 && r.res.Probes["head-ahead-of-state-image"] == 0 {
+			// (only where the state below the head was still kept: a history that pruned it took away
+			// what any recovery needs, which the node's own pruning never does)
+			_, belowKept := r.model[H-1]
+			if H >= 1 && belowKept && k >= r.iBlock+3 && r.res.Probes["head-ahead-of-state-image"] == 0 {
 				r.res.Violate("C05", "restart-state", "crash after the head block marker moved but before the consensus state of that height was saved: Load() returns the empty state",
 					fmt.Sprintf("height %d, write-log prefix %d of %d", H, k, r.iEnd))
 			}
@@ -747,7 +763,11 @@ func (r *run) crashImages() {
 		if ls.height != H {
 			var kept bool
 			wantSnap, kept = r.model[ls.height]
-			if !kept || ls.height != r.prevOf(H) {
+			// the product falls back to the state just below the head marker when the head's own
+			// state is absent; with the previous state pruned that is the one below it
+			_, prevKept := r.model[r.prevOf(H)]
+			fellBack := !prevKept && ls.height == r.prevOf(r.prevOf(H))
+			if !kept || (ls.height != r.prevOf(H) && !fellBack) {
 				r.fail("crash", "Load() on a crash image returns a state that is neither the previous nor the new one", fmt.Sprintf("height %d, loaded %d", H, ls.height))
 			}
 		}
